@@ -53,7 +53,7 @@ RULE = (
     "real tokens of generated streams (producer / exchange / union / call-state methods, several identities) x mutation "
     "classes {every bit of the first/last envelope bytes + sampled middle, text substitutions, truncations, extensions, "
     "base64 re-encodings incl. all non-canonical trailing bits, cursor<->call swaps, cross-stream, foreign keys of "
-    "lengths 0/1/31/32/33/64, cross-identity incl. colliding concatenations, clock offsets around the TTL, streams kept alive with gaps < TTL "
+    "lengths 0/1/31/32/33/64, genuine tokens replayed at every other method's endpoint, cross-identity incl. colliding concatenations, clock offsets around the TTL, streams kept alive with gaps < TTL "
     "and presented after the call token's expiry} x "
     "{warm, cold worker} x {continue, cancel}; a case is distinct by (stream, mutation, presentation) and non-trivial "
     "when the presented pair differs from the minted pair or the identity / clock differs"
@@ -458,7 +458,10 @@ def run_case(ctx: Any, env: Env, case: dict[str, Any], uniform: dict[str, Any], 
             fail(ctx, case, f"C12:genuine-rejected:{present['worker']}:{cls}", f"a genuine unexpired token pair was refused: {cls} {T.error_message(resp)}")
     else:
         if cls in ("ok", "in-band-error", "decode_error") or resp.status_code != 400:
-            if cur_ok and matched is not None and method != matched["spec"]["method"]:
+            if cls == "decode_error" and resp.status_code == 400:
+                # refused, but only after the token checks were passed and a decode was attempted — and with its own text
+                key = f"C12:rejected-after-decode-attempt:{'cache-hit' if live_hit else 'cache-miss'}"
+            elif cur_ok and matched is not None and method != matched["spec"]["method"]:
                 key = f"C12:cross-method-served:{cls}"  # C13's subject; reported here only if it shows up
             elif cur_ok and not call_fresh and (call_ok or not consulted):
                 key = f"C12:expired-call-token-served:{'cache-hit' if live_hit else 'cache-miss'}"
@@ -471,11 +474,16 @@ def run_case(ctx: Any, env: Env, case: dict[str, Any], uniform: dict[str, Any], 
             why = ("the stream's call token is older than the TTL "
                    f"(age {int(now) - int(matched['spec']['t'])}s > {env.ttl}s; cursor age {int(now) - matched['ctimes'][matched['cursors'].index(cursor)]}s) but the request was served"
                    if key.startswith("C12:expired-call-token-served") and matched is not None else
+                   f"refused with a message of its own ({T.error_message(resp)!r}) after a state decode was attempted — not the uniform token rejection"
+                   if key.startswith("C12:rejected-after-decode-attempt") else
                    "a text that is not a minted token for this key/identity/clock was not rejected with 400")
             fail(ctx, case, key, f"{why}: status {resp.status_code} {cls}; hooks {hooks[:3]}")
         else:
             if hooks:
-                fail(ctx, case, f"C12:hook-before-rejection:{hooks[0][0]}", f"rejected with {resp.status_code} but {hooks[:4]} ran first")
+                where = "cache-hit" if live_hit else "cache-miss"
+                fail(ctx, case, f"C12:hook-before-rejection:{hooks[0][0]}:{where}",
+                     f"rejected with {resp.status_code} ({cls}) but state decode / hooks ran first: {hooks[:4]}"
+                     + (f" — tokens of {matched['spec']['method']!r} presented at /{method}/exchange" if matched is not None and method != matched["spec"]["method"] else ""))
             if cls == "reject":
                 body = T.canon_error(resp)
                 if "body" not in uniform:
@@ -963,6 +971,30 @@ def campaign(ctx: Any, env: Env, uniform: dict[str, Any]) -> None:
                     for op in ("continue", "cancel"):
                         go({"stream": sp, "mutation": {"target": "none", "op": "none"},
                             "present": present(wk, idt, m, now=sp["t"] + age, op=op)})
+    flush_k(ctx, pending)
+
+    # 7. genuine tokens of one stream method replayed at another method's /exchange (a cross-stream presentation whose
+    #    tokens are authentic for key, identity and clock): must be refused *before* the foreign state class is decoded
+    #    or any hook runs — on the worker that minted them (cache hit), on a cold worker (AAD), and on a second worker
+    #    whose cache was filled by a genuine turn
+    for i, a in enumerate(methods):
+        for j, b in enumerate(methods):
+            if a == b:
+                continue
+            idt = alice if (i + j) % 2 else None
+            sp = stream_spec(a, 1000 + 10 * i + j, idt, turns=1 + (i + j) % 2)
+            st = env.mint(sp)
+            # fill the second worker's cache through a genuine turn at the minting method
+            go({"stream": sp, "mutation": {"target": "none", "op": "none"}, "present": present("second", idt, a)})
+            for ci in range(len(st["cursors"])):
+                for wk in ("warm", "cold", "second"):
+                    for op in ("continue", "cancel"):
+                        go({"stream": sp, "cursor_index": ci, "mutation": {"target": "none", "op": "none"},
+                            "present": present(wk, idt, b, op=op)})
+            # … also with the call token missing / garbled (the hit path never looks at it)
+            for wk in ("warm", "second"):
+                go({"stream": sp, "mutation": {"target": "call", "op": "absent"}, "present": present(wk, idt, b)})
+                go({"stream": sp, "mutation": {"target": "call", "op": "flip_raw", "pos": -1, "bit": 0}, "present": present(wk, idt, b)})
     flush_k(ctx, pending)
 
 
